@@ -7,5 +7,9 @@ DSeq(ch, h) == IF h > Len(ch) THEN ""
               ELSE LET d == ch[h].q - Q(ch, h - 1) IN
                    (IF d = 1 THEN "1" ELSE IF d = 4 * pc.period THEN "2" ELSE "3") \o DSeq(ch, h + 1)
 WalkId == ToString(IF pc.mode = "btc" THEN 1 ELSE IF pc.mode = "legacy" THEN 2 ELSE 3) \o ToString(pc.gap) \o DSeq(chain, 1)
+(* the walks carry the block intervals only: what the candidates declare and how they are judged is recorded from  *)
+(* the real code and computed by the trace specification (68 candidates per step would triple the generation time)  *)
+GenNext == (\E d \in Deltas(pc) : MineW(d, <<>>, FALSE)) \/ CompactStep
+GenSpec == Init /\ [][GenNext]_vars
 Dump == Done => JsonSerialize("out/b_" \o WalkId \o ".json", hist)
 =============================================================================
